@@ -1,0 +1,17 @@
+//go:build verif
+
+package conn
+
+// Contracts for the verification machinery in /verif (build tag "verif").
+// The standalone connection hands a command to the protocol writer as the command name followed by
+// exactly the arguments it was given, in order (what proto.Writer.WriteArgs then puts on the wire is
+// specified in package proto).
+
+//@ func RedisConn.send
+//@   arith int
+//@   properties C12 C01
+//@   requires nonnil: r != nil && proto.writerWF(r.protoWriter)
+//@   requires no_argument_is_one_of_the_writers_scratch_buffers: proto.argsApart(r.protoWriter, args)
+//@   modifies heap
+//@   assert at call WriteArgs: the_writer_is_given_the_list_built_here: samearray(arg1, argsInterface) && len(arg1) == len(argsInterface)
+//@   ensures the_list_is_the_name_and_then_every_argument_in_order [local]: len(argsInterface) == len(args) + 1 && hastype(argsInterface[0], "string") && asstring(argsInterface[0]) == cmd && (forall k int :: 1 <= k && k < len(argsInterface) ==> argsInterface[k] == args[k - 1])
